@@ -171,7 +171,7 @@ def reference(refop) -> dict:
     }
 
 
-def compare(op, refop, how: str) -> tuple[str, str] | None:
+def compare(op, refop, how: str, quirks: bool = False) -> tuple[str, str] | None:
     got, want = describe(op), reference(refop)
     if (got["method"], got["path"]) != (want["method"], want["path"]):
         return "wrong_operation", f"{how}: asked for {want['method']} {want['path']}, got {got['method']} {got['path']}"
@@ -189,6 +189,24 @@ def compare(op, refop, how: str) -> tuple[str, str] | None:
         return "non_string_status_key", f"{how}: response keys {got['responses']!r} are not all strings"
     if sorted(got["responses"]) != sorted(want["responses"]):
         return "responses_differ", f"{how}: response keys {got['responses']} != {want['responses']}"
+    # YAML scalars: property names such as on/off stay strings, date-like examples are not turned into dates
+    if refop.body_schema is not None:
+        try:
+            media = op.definition.resolved["requestBody"]["content"]["application/json"]["schema"]
+        except (KeyError, TypeError):
+            media = None
+        if isinstance(media, dict) and isinstance(media.get("properties"), dict):
+            names = list(media["properties"])
+            if any(not isinstance(n, str) for n in names):
+                return "non_string_property_name", f"{how}: body property names {names!r} are not all strings"
+            want_names = set(refop.body_schema.get("properties", {}))
+            if quirks:
+                want_names |= {"on", "since"}
+            if set(names) != want_names:
+                return "property_names_differ", f"{how}: body property names {sorted(map(str, names))} != {sorted(want_names)}"
+            ex = media["properties"].get("since", {}).get("example") if quirks else "x"
+            if quirks and not isinstance(ex, str):
+                return "date_scalar_converted", f"{how}: the example '2020-01-01' was loaded as {type(ex).__name__} ({ex!r})"
     return None
 
 
@@ -257,7 +275,7 @@ class C08Profile(Profile):
 
         def check(op, refop, how: str) -> None:
             st["checked"] += 1
-            r = compare(op, refop, how)
+            r = compare(op, refop, how, bool(u.desc.get("yaml_quirks")))
             if r is not None:
                 bad(r[0], r[1], how)
 
